@@ -51,6 +51,9 @@ def contexts(tier):
     ctx += [(False, False, False, True), (True, True, True, True)]
     # the strict-KEX marker of the *other* role (and an unknown kex-strict-* name) is just another neighbour
     ctx += [('other', True, True, False), ('other', False, False, False)]
+    # the half of the KEXINIT that is not rated differs from the rated half in exactly what the Terrapin rule looks at
+    ctx += [(False, True, False, False, 'other-half-has-etm'), (False, True, True, False, 'other-half-lacks-etm'), (False, False, True, False, 'other-half-has-cbc'),
+            (False, True, True, False, 'other-half-lacks-cbc'), (True, True, True, False, 'other-half-lacks-etm')]
     return ctx
 
 
@@ -59,7 +62,7 @@ SIZE_NEIGH_KEX = ['curve25519-sha256', 'diffie-hellman-group-exchange-sha256']
 
 
 def build_lists(cat, inst, pos, ctx, role):
-    marker, cbc, etm, small = ctx
+    marker, cbc, etm, small = ctx[:4]
     lists = {c: list(NEIGH[c]) for c in NEIGH}
     if small:
         lists['key'] = SIZE_NEIGH_KEYS + lists['key']
@@ -104,9 +107,32 @@ def ctx_key(cat, inst, lists, role, small=False):
     return ()
 
 
-def observe(cat, inst, lists, role, fmt, small=False):
+def other_half(lists, asym):
+    """the cipher / MAC lists of the direction the report does not rate"""
+    enc, mac = list(lists['enc']), list(lists['mac'])
+    if asym == 'other-half-has-etm':
+        mac = mac + ['hmac-sha2-512-etm@openssh.com']
+    elif asym == 'other-half-lacks-etm':
+        mac = [m for m in mac if not T.is_etm(m)] or ['hmac-sha2-512']
+    elif asym == 'other-half-has-cbc':
+        enc = enc + ['aes256-cbc']
+    elif asym == 'other-half-lacks-cbc':
+        enc = [c for c in enc if not T.is_cbc(c)] or ['aes128-ctr']
+    return enc, mac
+
+
+def observe(cat, inst, lists, role, fmt, small=False, asym=None):
     opts = ['-n'] + (['-j'] if fmt == 'json' else [])
-    if role == 'server':
+    if asym:
+        oenc, omac = other_half(lists, asym)
+        if role == 'server':
+            srv = peer.Server(kex=lists['kex'], key=lists['key'], enc=lists['enc'], mac=lists['mac'], enc_c2s=oenc, mac_c2s=omac, banner=b'SSH-2.0-dropbear_2022.83',
+                              host_keys=peer.standard_host_keys(lists['key']))
+            res = H.audit(srv, opts=opts + ['--skip-rate-test'])
+        else:
+            cli = peer.Client(kex=lists['kex'], key=lists['key'], enc=oenc, mac=omac, enc_s2c=lists['enc'], mac_s2c=lists['mac'], banner=b'SSH-2.0-dropbear_2022.83')
+            res = H.client_audit(cli, opts=opts)
+    elif role == 'server':
         srv = peer.Server(kex=lists['kex'], key=lists['key'], enc=lists['enc'], mac=lists['mac'], banner=b'SSH-2.0-dropbear_2022.83',
                           host_keys=peer.standard_host_keys(lists['key'], rsa_bits=1024 if small else 3072, ca='rsa', ca_bits=1024 if small else 3072),
                           gex=peer.GexPolicy([1024], peer.STRICT) if small else None)
@@ -156,10 +182,12 @@ def check_task(task, st, ctxs):
             for role in ('server', 'client'):
                 if ctx[3] and role == 'client':
                     continue        # nothing is measured in a client audit
+                if len(ctx) > 4 and role == 'client':
+                    continue        # a client audit rates one half of the KEXINIT and looks for Terrapin in the other: left open by the property
                 lists = build_lists(cat, inst, pos, ctx, role)
                 key = ctx_key(cat, inst, lists, role, ctx[3])
                 for fmt in ('text', 'json'):
-                    res, notes = observe(cat, inst, lists, role, fmt, ctx[3])
+                    res, notes = observe(cat, inst, lists, role, fmt, ctx[3], ctx[4] if len(ctx) > 4 else None)
                     st.execution(res.world, outcome=(res.status, fmt, role), root=(task, ctx, pos, role, fmt),
                                  nontrivial=(cat, inst, key, pos, role, fmt))
                     if notes is None:
